@@ -32,6 +32,16 @@ type Program struct {
 	repoDir   string
 	loadSecs  float64
 	implCache map[*types.Named]types.Type
+	infos     map[string]*types.Info      // package path -> type info (repo packages)
+	localsLock map[string][]localDecl      // function key -> declared locals when the lock was written
+	aliasCache map[*ssa.Function]map[string]string
+	entryCache map[*ssa.Function]bool
+}
+
+// localDecl is one variable declared in a function (parameters, results, locals) in source order.
+type localDecl struct {
+	Name string
+	Type string
 }
 
 func (p *Program) inRepo(fn *ssa.Function) bool {
@@ -136,6 +146,10 @@ func loadProgram(repoDir string, patterns []string, specDir string) (*Program, e
 			p.allPkgs = append(p.allPkgs, pk.Types)
 		}
 		if strings.HasPrefix(pk.PkgPath, repoModule) {
+			if p.infos == nil {
+				p.infos = map[string]*types.Info{}
+			}
+			p.infos[pk.PkgPath] = pk.TypesInfo
 			for i, f := range pk.Syntax {
 				if i < len(pk.CompiledGoFiles) {
 					p.files[pk.CompiledGoFiles[i]] = f
@@ -335,4 +349,172 @@ func (p *Program) singleImpl(it types.Type) types.Type {
 	}
 	p.implCache[named] = r
 	return r
+}
+
+// declaredLocals lists the variables a function declares, in source order.
+func (p *Program) declaredLocals(fn *ssa.Function) []localDecl {
+	syn := fn.Syntax()
+	info := p.infos[p.funcPkgPath(fn)]
+	if syn == nil || info == nil {
+		return nil
+	}
+	var out []localDecl
+	ast.Inspect(syn, func(n ast.Node) bool {
+		if fl, ok := n.(*ast.FuncLit); ok && n != syn {
+			_ = fl
+			return false // nested closures have their own list
+		}
+		id, ok := n.(*ast.Ident)
+		if !ok || id.Name == "_" {
+			return true
+		}
+		if obj, ok := info.Defs[id].(*types.Var); ok && obj != nil && !obj.IsField() {
+			out = append(out, localDecl{id.Name, types.TypeString(obj.Type(), nil)})
+		}
+		return true
+	})
+	return out
+}
+
+// renamedLocals maps names that contracts may use (as recorded when the lock
+// was written) to the current names when the function's declarations differ
+// from the recorded ones only by renaming. Bindings are only a convenience:
+// every clause is still checked, so a wrong binding cannot make a proof pass.
+func (p *Program) renamedLocals(fn *ssa.Function) map[string]string {
+	if m, ok := p.aliasCache[fn]; ok {
+		return m
+	}
+	if p.aliasCache == nil {
+		p.aliasCache = map[*ssa.Function]map[string]string{}
+	}
+	var m map[string]string
+	old := p.localsLock[p.funcKey(fn)]
+	cur := p.declaredLocals(fn)
+	if len(old) > 0 && len(old) == len(cur) {
+		ok := true
+		for i := range old {
+			if old[i].Type != cur[i].Type {
+				ok = false
+			}
+		}
+		if ok {
+			m = map[string]string{}
+			for i := range old {
+				if old[i].Name != cur[i].Name {
+					if prev, dup := m[old[i].Name]; dup && prev != cur[i].Name {
+						continue // shadowed names renamed differently: keep the first
+					}
+					m[old[i].Name] = cur[i].Name
+				}
+			}
+		}
+	}
+	p.aliasCache[fn] = m
+	return m
+}
+
+func (p *Program) loadLocalsLock(path string) {
+	p.localsLock = map[string][]localDecl{}
+	data, err := os.ReadFile(path)
+	if err != nil {
+		return
+	}
+	for _, line := range strings.Split(string(data), "\n") {
+		fs := strings.Split(line, "\t")
+		if len(fs) == 3 {
+			p.localsLock[fs[0]] = append(p.localsLock[fs[0]], localDecl{fs[1], fs[2]})
+		}
+	}
+}
+
+// isEntryPoint: exported functions and methods, functions that escape as values
+// (handlers, callbacks, goroutine bodies) and functions nobody in the repository
+// calls are verified on their own; everything else only where it is inlined.
+func (p *Program) isEntryPoint(fn *ssa.Function) bool {
+	if p.entryCache == nil {
+		p.entryCache = map[*ssa.Function]bool{}
+		called := map[*ssa.Function]bool{}
+		escapes := map[*ssa.Function]bool{}
+		for f := range p.keyOfFunc {
+			_ = f
+		}
+		for _, f := range p.funcByKey {
+			if !p.inRepo(f) {
+				continue
+			}
+			for _, b := range f.Blocks {
+				for _, instr := range b.Instrs {
+					var cc *ssa.CallCommon
+					isGo := false
+					switch t := instr.(type) {
+					case *ssa.Call:
+						cc = &t.Call
+					case *ssa.Defer:
+						cc = &t.Call
+					case *ssa.Go:
+						cc = &t.Call
+						isGo = true
+					}
+					var calleeVal ssa.Value
+					if cc != nil && !cc.IsInvoke() {
+						calleeVal = cc.Value
+						if callee := cc.StaticCallee(); callee != nil {
+							if isGo {
+								escapes[callee] = true
+							} else {
+								called[callee] = true
+							}
+						}
+					}
+					for _, op := range instr.Operands(nil) {
+						if op == nil || *op == nil || *op == calleeVal {
+							continue
+						}
+						switch v := (*op).(type) {
+						case *ssa.Function:
+							escapes[v] = true
+						case *ssa.MakeClosure:
+							// the closure value itself: escaping is decided by the uses of the MakeClosure
+							_ = v
+						}
+					}
+					if mc, ok := instr.(*ssa.MakeClosure); ok {
+						cf := mc.Fn.(*ssa.Function)
+						direct := true
+						for _, ref := range *mc.Referrers() {
+							switch r := ref.(type) {
+							case *ssa.Call:
+								if r.Call.Value != mc {
+									direct = false
+								}
+							case *ssa.Defer:
+								if r.Call.Value != mc {
+									direct = false
+								}
+							case *ssa.DebugRef:
+							default:
+								direct = false
+							}
+						}
+						if direct {
+							called[cf] = true
+						} else {
+							escapes[cf] = true
+						}
+					}
+				}
+			}
+		}
+		for _, f := range p.funcByKey {
+			if !p.inRepo(f) {
+				continue
+			}
+			exported := false
+			if o := f.Object(); o != nil {
+				exported = o.Exported()
+			}
+			p.entryCache[f] = exported || escapes[f] || !called[f]
+		}
+	}
+	return p.entryCache[fn]
 }
